@@ -171,4 +171,13 @@ def check(inp):
         # surveys interleaved in time run into the (separately listed) C08 label defect: reported under its own clause name
         tag = "[multi-survey-interleaved]" if inp.get("layout") == "interleaved" else ""      # (other layouts carry no tag)
         bad("equals-the-analytic-gaussian-marginal" + tag, got=ll, want=want, cfg=inp)
+    if not fails and inp.get("layout") == "single" and inp["pt"] <= 2:
+        # call history on ONE samples object: a column is replaced through the public API, the same object is evaluated again
+        samples["P"] = samples["P"] * 1.25
+        ll2 = joker.marginal_ln_likelihood(data, samples, in_memory=True)
+        rows2 = rows.copy()
+        rows2[:, 0] = samples["P"].to_value(u.day)
+        want2 = closed_form(prior, data, rows2, inp)
+        if not np.allclose(ll2, want2, rtol=rtol, atol=1e-6):
+            bad("equals-the-analytic-gaussian-marginal-after-a-column-was-replaced[call-history]", got=ll2, want=want2, cfg=inp)
     return fails
